@@ -41,10 +41,18 @@ def run(rng, tier, res=None):
         metric = rng.choice(names) if tier == "quick" else names[case % len(names)]
         if case % 5 == 0:
             metric = rng.choice(["pearson", "neyman", "kullback_leibler", "k_divergence", "statistic"])   # asymmetric: orientation matters
+        if case % 10 == 1:
+            metric = "gaussian"            # self-distance 1
+        if case % 10 == 2:
+            metric = "bhattacharyya"       # self-distance != 0 off the simplex
         fn = dist.DISTANCES[metric]
         N = rng.choice([8, 10, 12]); d = rng.choice([2, 3])
-        D = np.array([[rng.uniform(0.1, 1.0) for _ in range(d)] for _ in range(N)])
-        D = D / D.sum(axis=1, keepdims=True)
+        if rng.random() < 0.4:
+            # small integer lattice: many exactly tied distances (tie-breaking must be the same on both paths)
+            D = np.array([[float(rng.randint(1, 3)) for _ in range(d)] for _ in range(N)])
+        else:
+            D = np.array([[rng.uniform(0.1, 1.0) for _ in range(d)] for _ in range(N)])
+            D = D / D.sum(axis=1, keepdims=True)
         Y = np.array([i % 2 for i in range(N)], dtype=int); rng.shuffle(Y)
         ext = rng.choice(["txt", "csv"])
         path = os.path.join(tmp, f"d{case}.{ext}")
